@@ -77,16 +77,25 @@ def main():
         print("/repo is not clean; refusing", out)
         return 2
     results = {}
+    # the checks run against a scratch copy of /repo with the patch applied (VERIF_REPO), so that /repo itself stays
+    # untouched while other runs are using it
+    import tempfile
+    scratch = tempfile.mkdtemp(prefix="seed-eval-repo-")
+    root = os.path.join(scratch, "repo")
+    shutil.copytree("/repo", root, ignore=shutil.ignore_patterns(".git", "__pycache__", "notebooks", "images", "docs"))
     try:
-        rc, out, err = sh(f"git apply {patch}", cwd="/repo")
+        rc, out, err = sh(f"git apply {patch}", cwd=root)
         if rc != 0:
-            print("cannot apply to /repo", err)
+            rc, out, err = sh(f"patch -p1 -F3 -s < {patch}", cwd=root)  # /repo has moved on (later fix: commits): apply with fuzz
+            meta["applied_with_fuzz"] = rc == 0
+        if rc != 0:
+            print("cannot apply to the scratch copy", err)
             return 2
         for c in checks:
             t0 = time.time()
             tmp_ev = f"/tmp/seed-eval-ev-{a.seed_id}-{c}"
             tmp_rp = f"/tmp/seed-eval-rp-{a.seed_id}-{c}"
-            e2 = dict(env, VERIF_EVIDENCE_DIR=tmp_ev, VERIF_REPLAY_DIR=tmp_rp)
+            e2 = dict(env, VERIF_EVIDENCE_DIR=tmp_ev, VERIF_REPLAY_DIR=tmp_rp, VERIF_REPO=root)
             rc, out, err = sh(f"{PY} check.py {c} --tier {a.tier}", cwd=VERIF, env=e2)
             lines = [ln for ln in out.splitlines() if ln.startswith(("VIOLATION", "  invariant=", "HARNESS", "KNOWN"))]
             results[c] = {"exit": rc, "wall_s": round(time.time() - t0, 1), "lines": [ln[:400] for ln in lines[:8]]}
@@ -97,9 +106,7 @@ def main():
             shutil.rmtree(tmp_ev, ignore_errors=True)
             results[c]["replays"] = [ln.split("replay=")[1].strip() for ln in lines if ln.startswith("VIOLATION")]
     finally:
-        sh("git checkout -- . ", cwd="/repo")
-    rc, out, err = sh("git status --porcelain", cwd="/repo")
-    assert not out.strip(), "repo not restored"
+        shutil.rmtree(scratch, ignore_errors=True)
     for c, r in results.items():
         clean = []
         for rp in r.get("replays", []):
@@ -118,7 +125,7 @@ def main():
     meta["needs_to_manifest"] = open(notes).read().strip()[:1500] if os.path.exists(notes) else ""
     meta["what_was_run"] = [
         f"scratch worktree: git apply patch.diff; {PY} -m pytest -q -p no:cacheprovider (must pass); {PY} demo.py (must exit 1); git checkout -- .; {PY} demo.py (must exit 0)",
-        f"/repo: git apply patch.diff; {PY} check.py <check> --tier {a.tier}; git checkout -- .; replay of each reported violation on the unchanged tree (must not reproduce)",
+        f"scratch copy of /repo with patch.diff applied (VERIF_REPO): {PY} check.py <check> --tier {a.tier}; replay of each reported violation on the unchanged /repo (must not reproduce)",
     ]
     with open(os.path.join(dst, "meta.json"), "w") as f:
         json.dump(meta, f, indent=1)
